@@ -30,7 +30,8 @@ Case families
 
 Driver protocol (lean/Driver/P08.lean):
   {"model":"c08","op":"den", <run input as for model "run">, "n":N, "runs":[{"trace":[..],"exit":k,"complete":b}..]}
-      -> {"den":[..],"closure":[..],"exit":k,"nocalc":b,"determined":b,"mon_den":[b..],"mon_pair":[b..],"reports":[[..]..]}
+      -> {"den":[..],"closure":[..],"exit":k,"nocalc":b,"determined":b,"mon_den":[b..],"mon_pair":[b..],"reports":[[..]..],
+          "den_c":[..],"closure_c":[..],"exit_c":k,"determined_c":b,"mon_den_c":[b..]}   (_c: denotation with dynamic calc_dep edges)
   {"model":"c08","op":"job","main":{"task":{attr:id}},"worker":{"task":{attr:id}}} -> {"shipped":[attr..],"task":{attr:id}}
   {"model":"c08","op":"data","main":{"task":{attr:id},"acts":[[o,e]..]},"worker":{"task":{..},"acts":[..],"failure":id|null},
    "outs":[..]?, "errs":[..]?} -> {"shipped":[attr..],"task":{attr:id},"acts":[[o,e]..],"base_fail":id|null,"name":id}
@@ -111,24 +112,38 @@ def _fill_level():
         'has the worker\'s value of every shipped attribute (values, result, executed, options, ...), keeps its own '
         'unshipped ones, gets per-action out/err position by position, and process_task_result receives the worker\'s '
         'failure.  ' +
-        ('C08_status_is_den, C08_confluence_status, C08_complete_reports_closure, C08_exit_of_reports, '
-         'C08_confluence_partial, C08_den_computable, C08_monitors_hold: over graphs with task_dep and setup edges (after '
-         'expansion: getargs, result_dep, target->file_dep), in every reachable state of the serial, thread and process '
-         'transition systems of the run model (every schedule, every numProcess, every set-iteration order) every finished '
-         'run_status and every terminal report (success / up-to-date / ignored / failure kind) equals the denotation DenOf, '
-         'which depends on the task table and the oracle only; a complete run (no failure, or --continue) reports exactly '
-         'the denotational closure of the selection; hence two complete runs under ANY two runners/schedules report the '
-         'same tasks with the same outcomes (same save/remove DB effects) and return the same exit code; on acyclic '
-         'graphs the executable denF/denClosure/denExit evaluated by the driver are that denotation.  ' if conf else
-         'The confluence half is stated (C08_confluence_full) and covered by the correspondence and the differential '
-         'monitor only.  ') +
+        ('C08_confluence (FULL statement, theorem; no NoCalc, no Acyclic hypothesis), C08_status_is_den_dyn, '
+         'C08_confluence_status_dyn, C08_complete_reports_closure_dyn, C08_complete_exit_dyn, C08_pair_monitor_holds: over '
+         'ANY task graph - task_dep, setup edges and dynamic calc_dep edges (a calc task delivers task_dep / file_dep '
+         'owners / further calc_dep when it is executed or up-to-date; the oracle calcRes is a function of the task) - '
+         'in every reachable state of the serial, thread and process transition systems of the run model (every '
+         'schedule, every numProcess, every set-iteration order, every arrival order of calc results) every finished '
+         'run_status and every terminal report (success / up-to-date / ignored / failure kind) equals the denotation '
+         'Dyn.DenOf, which depends on the task table and the oracle only (its dependency set is the least set closed '
+         'under what good calc_deps deliver); a complete run (no failure, or --continue) reports exactly the '
+         'denotational closure Dyn.DenCl of the selection; hence two complete runs under ANY two runners/schedules '
+         'report the same tasks with the same outcomes (same save/remove DB effects), leave the same run_status and '
+         'return the same exit code, and the pair monitor monC08Pair holds of them.  C08_den_dyn_noCalc: on graphs '
+         'without calc_dep Dyn.DenOf is the static DenOf of C08_status_is_den, C08_confluence_status, '
+         'C08_complete_reports_closure, C08_exit_of_reports, C08_confluence_partial, C08_den_computable, '
+         'C08_monitors_hold (kept): there, on acyclic graphs, the executable denF/denClosure/denExit evaluated by the '
+         'driver are that denotation.  C08_den_computable_dyn, C08_monitors_hold_dyn: the executable denotation with '
+         'dynamic edges (denFC / denClosureC / denExitC: bottom-up table, calc_dep sets and closure by iteration) is sound '
+         '- a determined answer IS Dyn.DenOf - and under the decidable side condition determinedC the computed closure is '
+         'Dyn.DenCl and the driver monitor monC08DenC holds of every model trace, on graphs with calc_dep too; '
+         'C08_den_total_dyn: Dyn.DenOf is total on finite graphs ranked as in C09.  ' if conf else
+         'The confluence half is covered by the correspondence and the differential monitor only.  ') +
         'Tied to doit on every run: trace acceptance of every serial/thread/process run by the M1 model, denotation vs. '
         'observed reports/closure/exit code, API-level differential test of the pickling functions, and the property '
         'statement itself evaluated on serial-vs-parallel real runs (outcomes, exit code, values, results, captured '
         'output, failure text, DB dump, file digests).')
     META['level_note'] = (
-        'Partial: dynamic calc_dep edges are outside the confluence theorems (hypothesis NoCalc; C08_confluence_full '
-        'stays a def) and are covered by K1 + P only; values/results/target files are not part of the run model (their '
+        'Confluence is proved in full (C08_confluence covers dynamic calc_dep edges; C08_confluence_partial is the '
+        'NoCalc special case, kept).  Not proved: completeness of the executable denFC (that nTasks+1 rounds suffice on '
+        'acyclic inputs) - instead the decidable side condition determinedC is evaluated per case by the driver and K2c '
+        'is applied only where it holds (distribution: hyp_dyn_determined); cyclic inputs stay K1 + P.  (Confluence itself needs neither: a run '
+        'that ends without exception has derived every outcome it reports.)  values/results/target files '
+        'are not part of the run model (their '
         'equality across runners is the differential monitor P plus data_intact for the queue crossing).  Monitor (P): '
         'Lean predicate monC08Pair for reports+exit through the driver; the data/DB/file comparison is a Python equality '
         'on canonical JSON.  Trusted: '
@@ -892,6 +907,21 @@ def eval_group(case, variants, st, shrink_s=8.0, accept=True):
                     st.divergence({'case': _strip(c), 'den': ans['den'], 'closure': ans['closure'], 'den_exit': ans['exit'],
                                    'reports': s['reports'], 'exit': o['exit'], 'complete': s['complete']},
                                   'K2: reports / closure / exit code of the %s run differ from the denotation' % c['runner'])
+    # K2c: denotation with dynamic calc_dep edges (hypothesis: determined_c, decidable; C08_monitors_hold_dyn)
+    if ans is not None and fam == 'A' and 'determined_c' in ans:
+        kind = 'nocalc' if ans.get('nocalc') else 'calc'
+        st.count('hyp_dyn_determined:%s:%s' % (kind, bool(ans.get('determined_c'))))
+        if ans.get('determined_c'):
+            for (c, o, s), ok in zip(runs, ans['mon_den_c']):
+                if o['err'] is not None:
+                    continue
+                st.count('den_c_checked:%s' % kind)
+                if not ok:
+                    st.divergence({'case': _strip(c), 'den': ans['den_c'], 'closure': ans['closure_c'],
+                                   'den_exit': ans['exit_c'], 'reports': s['reports'], 'exit': o['exit'],
+                                   'complete': s['complete']},
+                                  'K2c: reports / closure / exit code of the %s run differ from the denotation with '
+                                  'dynamic calc_dep edges' % c['runner'])
     # P: serial vs each variant
     if not ref['complete']:
         st.count('pair_skipped_reference_cut_short')
@@ -1354,7 +1384,8 @@ def _data_intact_py(c, got):
 # batches
 # ======================================================================================================
 
-A_KNOBS = {'n_max': 8, 'p_dup_sel': 0.0, 'p_cont': 0.6, 'weights': {'calc_dep': 3}}
+# calc_dep edges are inside the theorems (C08_confluence) and the denotation monitor (K2c) since wave 3
+A_KNOBS = {'n_max': 8, 'p_dup_sel': 0.0, 'p_cont': 0.6, 'weights': {'calc_dep': 9}}
 
 
 def gen_variants(rng, case, kinds):
@@ -1557,10 +1588,15 @@ def run(ctx, scale=1.0):
     # process-mode runs fork real worker processes: not possible inside the (daemonic) pool workers
     for st in fork_map(eval_batch, cmain + main, procs=4):
         st.merge_into(ctx)
-    ctx.extra['hypotheses'] = {'NoCalc+acyclic (confluence theorems / K2)': ctx.dist.get('hyp_nocalc_acyclic:True', 0),
-                               'not satisfied (calc_dep present): P and K1 only': ctx.dist.get('hyp_nocalc_acyclic:False', 0)}
-    ctx.extra['partial_theorems'] = ['C08_confluence_partial (hypothesis NoCalc); C08_confluence_full (dynamic calc_dep '
-                                     'edges) is a def only, covered by K1 + P']
+    ctx.extra['hypotheses'] = {'NoCalc+acyclic (static executable denotation denF / K2 / monC08Den)': ctx.dist.get('hyp_nocalc_acyclic:True', 0),
+                               'not NoCalc+acyclic': ctx.dist.get('hyp_nocalc_acyclic:False', 0),
+                               'determinedC, graph with calc_dep (denFC / K2c / monC08DenC)': ctx.dist.get('hyp_dyn_determined:calc:True', 0),
+                               'determinedC, graph without calc_dep': ctx.dist.get('hyp_dyn_determined:nocalc:True', 0),
+                               'not determinedC (cyclic / cut): K1 + P only': ctx.dist.get('hyp_dyn_determined:calc:False', 0) + ctx.dist.get('hyp_dyn_determined:nocalc:False', 0)}
+    ctx.extra['partial_theorems'] = ['C08_confluence_partial (hypothesis NoCalc) is subsumed by the theorem C08_confluence '
+                                     '(any graph, dynamic calc_dep edges); C08_den_computable / C08_monitors_hold (static '
+                                     'denF, NoCalc + Acyclic) are complemented by C08_den_computable_dyn / '
+                                     'C08_monitors_hold_dyn (denFC, any graph, decidable side condition determinedC)']
 
 
 def search(ctx):
@@ -1632,9 +1668,13 @@ def replay(ctx, data):
         print('exit=%s err=%s reports=%s' % (o['exit'], o['err'], s['reports']))
         ans = common.drv_batch([den_request(c, [(o, s)])])[0]
         print('denotation:', ans.get('den'), 'closure', ans.get('closure'), 'exit', ans.get('exit'), 'mon_den', ans.get('mon_den'))
+        print('denotation (dynamic calc_dep edges):', ans.get('den_c'), 'closure', ans.get('closure_c'), 'exit', ans.get('exit_c'),
+              'determined', ans.get('determined_c'), 'mon_den_c', ans.get('mon_den_c'))
         ok = True
         if ans.get('nocalc') and ans.get('determined') and o['err'] is None:
             ok = bool(ans['mon_den'][0])
+        if ans.get('determined_c') and o['err'] is None:
+            ok = ok and bool(ans['mon_den_c'][0])
         if c.get('fam', 'A') == 'A':
             a = runlib.ask_model([(c, o)])[0]
             print('M1 accepts the trace:', a.get('accepted'), a.get('error', ''))
